@@ -11,8 +11,8 @@ for ln in run.split("\n"):
     c = re.sub(r"\s+#.*$", "", ln.strip())
     if re.match(r"(mkdir|cp) ", c):
         install.append(c)
-    elif re.match(r"cargo (test|run) ", c) and "--workspace" not in c and demo is None:
-        demo = c
+    elif re.search(r"(^|\s)cargo (test|run) ", c) and "--workspace" not in c and demo is None:
+        demo = c[c.index("cargo "):]
 env = dict(os.environ, CARGO_TARGET_DIR="/tmp/seed/%s-target" % cid, CARGO_NET_OFFLINE="true", RUST_BACKTRACE="0")
 clean = "git checkout -q -- . && git clean -qfd"
 subprocess.run(clean, shell=True, cwd=wt)
